@@ -22,14 +22,14 @@ type Plan struct {
 	Rule  string
 	// Nontrivial decides whether a finished run counts towards
 	// distinct_nontrivial (a probe relevant to the property fired).
-	Nontrivial func(r *RunResult) bool
-	Assumptions []string
-	MemLimit    uint64 // address-space fence for workers (bytes); 0 = none
-	DeathIsViolation bool // a worker dying reproducibly in a run is a violation (C18), not infrastructure
+	Nontrivial       func(r *RunResult) bool
+	Assumptions      []string
+	MemLimit         uint64 // address-space fence for workers (bytes); 0 = none
+	DeathIsViolation bool   // a worker dying reproducibly in a run is a violation (C18), not infrastructure
 }
 
 func wAll() map[string]int {
-	return map[string]int{OpAdd: 10, OpAddMulti: 2, OpCompactAll: 2, OpExpire: 1, OpAutoCompact: 2, OpCompactRange: 2, OpClean: 1, OpRead: 2, OpReopen: 1, OpUpToDate: 1, OpClose: 0, OpSetAuto: 1, OpBegin: 1, OpCommit: 1, OpAbort: 1}
+	return map[string]int{OpAdd: 10, OpAddMulti: 2, OpCompactAll: 2, OpExpire: 1, OpAutoCompact: 2, OpCompactRange: 2, OpClean: 1, OpRead: 2, OpReopen: 1, OpUpToDate: 1, OpClose: 1, OpSetAuto: 1, OpBegin: 1, OpCommit: 1, OpAbort: 1}
 }
 
 func baseProfile() *Profile {
@@ -96,8 +96,8 @@ func Plans() map[string]*Plan {
 		p.SkipNameCheckP = 0.5
 		p.FwdLogP = 0.15
 		ps["C03"] = &Plan{Prop: "C03", Level: "exploration",
-			Parts: []Part{turnPart("C03", "S-TURN/deep-reads", 9000, 900000, p, RunOpts{DeepReads: true})},
-			Rule:  "S-TURN histories (seeded; 1-2 handles, 4-22 ops, all record kinds, range/auto/full compaction, swarm Config); a run is non-trivial when a raw merged view over >=2 tables was compared and at least one seek was checked; distinct = distinct (interleaving hash, list versions, probe vector)",
+			Parts:      []Part{turnPart("C03", "S-TURN/deep-reads", 9000, 900000, p, RunOpts{DeepReads: true})},
+			Rule:       "S-TURN histories (seeded; 1-2 handles, 4-22 ops, all record kinds, range/auto/full compaction, swarm Config); a run is non-trivial when a raw merged view over >=2 tables was compared and at least one seek was checked; distinct = distinct (interleaving hash, list versions, probe vector)",
 			Nontrivial: func(r *RunResult) bool { return r.Probes["raw-merged-multi"] > 0 && r.Probes["seek-ref"] > 0 }}
 	}
 	// ---- C04
@@ -137,7 +137,7 @@ func Plans() map[string]*Plan {
 				{Name: "S-CRASH-ENUM", Quick: 1500, Thorough: 150000, Gen: func(seed uint64) *RunSpec { return GenCrashEnum("C06", seed) }, Exec: ExecCrashEnum},
 				crashPart("C06", "S-CRASH-RAND", 8000, 800000, p, RunOpts{}),
 			},
-			Rule: "S-CRASH-ENUM: seeded prefix history (0-8 ops, 2 handles, swarm Config) + one target operation (Add, multi-table Addition, CompactAll, expiry, range compaction, AutoCompact, Clean, Close, reopen); the process is killed immediately before EVERY one of the target's K filesystem calls (exhaustive per instance), then a possibly stale survivor process and a fresh process continue. evaluations = executions (one per crash point, plus the crash-free baseline of each instance, plus S-CRASH-RAND runs); distinct_nontrivial = distinct (target operation kind, kind of the call the crash preceded, class of its path, position bucket inside the operation) combinations actually crashed at",
+			Rule:       "S-CRASH-ENUM: seeded prefix history (0-8 ops, 2 handles, swarm Config) + one target operation (Add, multi-table Addition, CompactAll, expiry, range compaction, AutoCompact, Clean, Close, reopen); the process is killed immediately before EVERY one of the target's K filesystem calls (exhaustive per instance), then a possibly stale survivor process and a fresh process continue. evaluations = executions (one per crash point, plus the crash-free baseline of each instance, plus S-CRASH-RAND runs); distinct_nontrivial = distinct (target operation kind, kind of the call the crash preceded, class of its path, position bucket inside the operation) combinations actually crashed at",
 			Nontrivial: func(r *RunResult) bool { return r.Crashes > 0 }}
 	}
 	// ---- C07
@@ -171,7 +171,7 @@ func Plans() map[string]*Plan {
 				concPart("C08", "S-CONC/lock-heavy", 30000, 3000000, p, RunOpts{}),
 				crashPart("C08", "S-CRASH-RAND", 9000, 900000, p, RunOpts{}),
 			},
-			Rule:       "lock-heavy S-CONC/S-CRASH-RAND (compactions racing Adds and each other); lock-tenure monitor on every create/remove/rename of *.lock; non-trivial = a lock acquisition failed with EEXIST or another process ran inside a compaction's unlocked window; distinct = distinct projected event-sequence hash",
+			Rule: "lock-heavy S-CONC/S-CRASH-RAND (compactions racing Adds and each other); lock-tenure monitor on every create/remove/rename of *.lock; non-trivial = a lock acquisition failed with EEXIST or another process ran inside a compaction's unlocked window; distinct = distinct projected event-sequence hash",
 			Nontrivial: func(r *RunResult) bool {
 				return probeAny(r, "lock-contention-listlock", "lock-contention-tablelock", "W1-other-task-ran")
 			}}
@@ -184,8 +184,8 @@ func Plans() map[string]*Plan {
 		p.HandlesPerTask = 4
 		p.AutoP = 0.4
 		ps["C09"] = &Plan{Prop: "C09", Level: "exploration",
-			Parts: []Part{turnPart("C09", "S-TURN/stale-handles", 24000, 2400000, p, RunOpts{})},
-			Rule:  "S-TURN histories over 2-4 handles; non-trivial = a write was attempted through a stale handle; distinct = distinct event hash",
+			Parts:      []Part{turnPart("C09", "S-TURN/stale-handles", 24000, 2400000, p, RunOpts{})},
+			Rule:       "S-TURN histories over 2-4 handles; non-trivial = a write was attempted through a stale handle; distinct = distinct event hash",
 			Nontrivial: func(r *RunResult) bool { return r.Probes["op-through-stale-handle"] > 0 }}
 	}
 	// ---- C10
@@ -204,8 +204,10 @@ func Plans() map[string]*Plan {
 				concPart("C10", "S-CONC/readers-vs-churn", 40000, 4000000, p, RunOpts{}),
 				timePart("C10", "S-TIME", 8000, 800000, p, RunOpts{}),
 			},
-			Rule:       "reader/reloader processes against 1-3 churn processes (Add, compactions), every ReadAt/open a scheduling point; non-trivial = a reload hit a vanished table or a read ran through a handle that was stale; distinct = distinct projected event-sequence hash",
-			Nontrivial: func(r *RunResult) bool { return probeAny(r, "reload-enoent", "op-through-stale-handle") && len(r.Segs) > 2 }}
+			Rule: "reader/reloader processes against 1-3 churn processes (Add, compactions), every ReadAt/open a scheduling point; non-trivial = a reload hit a vanished table or a read ran through a handle that was stale; distinct = distinct projected event-sequence hash",
+			Nontrivial: func(r *RunResult) bool {
+				return probeAny(r, "reload-enoent", "op-through-stale-handle") && len(r.Segs) > 2
+			}}
 	}
 	// ---- C11
 	{
@@ -238,8 +240,8 @@ func Plans() map[string]*Plan {
 		p.HandlesPerTask = 2
 		p.RefsPerTxn = [2]int{1, 3}
 		ps["C12"] = &Plan{Prop: "C12", Level: "exploration",
-			Parts: []Part{turnPart("C12", "S-TURN/prefix-names", 40000, 4000000, p, RunOpts{})},
-			Rule:  "S-TURN histories over a prefix-rich alphabet (a, a/b, a/b/c, a/bb, ab, b, b/a, malformed names), single-table Adds and multi-table Additions; the model decides legality; non-trivial = at least one transaction was rejected for a name conflict and one committed; distinct = distinct event hash",
+			Parts:      []Part{turnPart("C12", "S-TURN/prefix-names", 40000, 4000000, p, RunOpts{})},
+			Rule:       "S-TURN histories over a prefix-rich alphabet (a, a/b, a/b/c, a/bb, ab, b, b/a, malformed names), single-table Adds and multi-table Additions; the model decides legality; non-trivial = at least one transaction was rejected for a name conflict and one committed; distinct = distinct event hash",
 			Nontrivial: func(r *RunResult) bool { return r.Probes["rejected-name"] > 0 && r.Versions > 1 }}
 	}
 	// ---- C13
@@ -252,8 +254,8 @@ func Plans() map[string]*Plan {
 		p.RefsPerTxn = [2]int{0, 2}
 		p.FwdLogP = 0.15
 		ps["C13"] = &Plan{Prop: "C13", Level: "exploration",
-			Parts: []Part{turnPart("C13", "S-TURN/expiry", 20000, 2000000, p, RunOpts{})},
-			Rule:  "S-TURN stacks with several log entries per ref across tables; expiry configurations with each limit unset/below/inside/equal/above; non-trivial = an expiry compaction committed; distinct = distinct event hash",
+			Parts:      []Part{turnPart("C13", "S-TURN/expiry", 20000, 2000000, p, RunOpts{})},
+			Rule:       "S-TURN stacks with several log entries per ref across tables; expiry configurations with each limit unset/below/inside/equal/above; non-trivial = an expiry compaction committed; distinct = distinct event hash",
 			Nontrivial: func(r *RunResult) bool { return r.Probes["expire-commit"] > 0 }}
 	}
 	// ---- C16
@@ -274,7 +276,7 @@ func Plans() map[string]*Plan {
 				crashPart("C16", "S-CRASH-RAND", 9000, 900000, p, RunOpts{}),
 				turnPart("C16", "S-TURN", 9000, 900000, q, RunOpts{}),
 			},
-			Rule:       "S-CONC with failure paths provoked (contended Adds, rejected transactions, lost lock races, empty stacks, Clean/Close in all states), S-CRASH-RAND, S-TURN; residue monitors at every idle point and at quiescence; non-trivial = some operation failed or lost a lock race; distinct = distinct projected event-sequence hash",
+			Rule: "S-CONC with failure paths provoked (contended Adds, rejected transactions, lost lock races, empty stacks, Clean/Close in all states), S-CRASH-RAND, S-TURN; residue monitors at every idle point and at quiescence; non-trivial = some operation failed or lost a lock race; distinct = distinct projected event-sequence hash",
 			Nontrivial: func(r *RunResult) bool {
 				for k, n := range r.CallCounts {
 					if n > 0 && (hasSuffix(k, ":lockfail") || hasSuffix(k, ":error")) {
@@ -321,16 +323,16 @@ func Plans() map[string]*Plan {
 				{Name: "S-SHARE", Quick: 12000, Thorough: 1000000, Gen: func(seed uint64) *RunSpec { return GenShare("C19", seed) }},
 				{Name: "S-SHARE-RACE", Quick: 24, Thorough: 1200, Gen: func(seed uint64) *RunSpec { return GenShareRace("C19", seed, 12) }},
 			},
-			Rule: "S-SHARE: one Reader (simulated-disk BlockSource, or a file on the simulated filesystem), one Merged or one Stack.Merged() shared by 2-8 reader tasks with seeded programs of scans, seeks and RefsFor, interleaved at every ReadBlock/ReadAt by the seeded scheduler; results must equal those of each program alone on a separate fresh instance. S-SHARE-RACE: the same seeded programs on free-running goroutines in a race-detector build of the unrewritten sources (12 cases per process); any race report or result mismatch is a violation. non-trivial = at least two tasks interleaved (>=3 schedule segments) or a race-build batch; distinct = distinct (schedule, case) hashes",
-			Nontrivial: func(r *RunResult) bool { return len(r.Segs) > 2 || r.Probes["race-cases"] > 0 },
+			Rule:        "S-SHARE: one Reader (simulated-disk BlockSource, or a file on the simulated filesystem), one Merged or one Stack.Merged() shared by 2-8 reader tasks with seeded programs of scans, seeks and RefsFor, interleaved at every ReadBlock/ReadAt by the seeded scheduler; results must equal those of each program alone on a separate fresh instance. S-SHARE-RACE: the same seeded programs on free-running goroutines in a race-detector build of the unrewritten sources (12 cases per process); any race report or result mismatch is a violation. non-trivial = at least two tasks interleaved (>=3 schedule segments) or a race-build batch; distinct = distinct (schedule, case) hashes",
+			Nontrivial:  func(r *RunResult) bool { return len(r.Segs) > 2 || r.Probes["race-cases"] > 0 },
 			Assumptions: []string{"race-detector reports are happens-before based: they reproduce with the same seed with overwhelming probability, but that part of a replay is not exact", "the deterministic part interleaves only at the block-read seam; memory-level races are the race detector's job"}}
 	}
 	// ---- C18
 	{
 		ps["C18"] = &Plan{Prop: "C18", Level: "exploration", MemLimit: 6 << 30, DeathIsViolation: true,
-			Parts: []Part{{Name: "S-CORRUPT", Quick: 250000, Thorough: 30000000, Gen: func(seed uint64) *RunSpec { return GenCorrupt("C18", seed) }}},
-			Rule:  "S-CORRUPT: a valid table (real Writer; 0-60 refs of all kinds, 0-20 log entries, swarm Config incl. small blocks, both hash sizes) hit by 1-8 storage faults (bit flip, byte overwrite, truncation, zeroed aligned range, splice from another offset or table, u24/u16 length-field edits, footer-field edits with the CRC repaired, header copied to footer with CRC repaired, trailing garbage) and, in faulty-source mode, transient short/empty/failed ReadBlock results; workload NewReader + full scans + seeks + RefsFor through the library's ByteBlockSource, through a clamping simulated-disk source, and through NewStack/Merged over a directory holding the damaged table; non-trivial = the damaged bytes differ from the original; distinct = distinct damaged byte strings",
-			Nontrivial: func(r *RunResult) bool { return r.Probes["corrupt-noop"] == 0 && r.Probes["corrupt-unbuildable"] == 0 },
+			Parts:       []Part{{Name: "S-CORRUPT", Quick: 250000, Thorough: 30000000, Gen: func(seed uint64) *RunSpec { return GenCorrupt("C18", seed) }}},
+			Rule:        "S-CORRUPT: a valid table (real Writer; 0-60 refs of all kinds, 0-20 log entries, swarm Config incl. small blocks, both hash sizes) hit by 1-8 storage faults (bit flip, byte overwrite, truncation, zeroed aligned range, splice from another offset or table, u24/u16 length-field edits, footer-field edits with the CRC repaired, header copied to footer with CRC repaired, trailing garbage) and, in faulty-source mode, transient short/empty/failed ReadBlock results; workload NewReader + full scans + seeks + RefsFor through the library's ByteBlockSource, through a clamping simulated-disk source, and through NewStack/Merged over a directory holding the damaged table; non-trivial = the damaged bytes differ from the original; distinct = distinct damaged byte strings",
+			Nontrivial:  func(r *RunResult) bool { return r.Probes["corrupt-noop"] == 0 && r.Probes["corrupt-unbuildable"] == 0 },
 			Assumptions: []string{"arbitrary byte strings are reached only as mutations of valid tables; there is no coverage guidance", "pure CPU loops are caught by iteration caps and a 900 s per-run watchdog"}}
 	}
 	return ps
